@@ -28,8 +28,8 @@ def run(repo, run, tier):
 
 
 # ------------------------------------------------------------------------------------------------
-def truncation(repo, run):
-    rid = run.rule("C09.1", "handle_events: roots are ordered along the direction of integration before the terminal truncation; the truncation "
+def truncation(repo, run, rule_id="C09.1"):
+    rid = run.rule(rule_id, "handle_events: roots are ordered along the direction of integration before the terminal truncation; the truncation "
                             "keeps [: first terminal + 1] of active_events, roots and evs alike and sets terminate", floor=5)
     fn = repo.get(DS, "handle_events")
     run.analysed_fn(DS, fn)
@@ -44,7 +44,7 @@ def truncation(repo, run):
             order_st = st
     if order_st is None:
         run.judged(rid, "ordering statement", ok=False)
-        run.report("C09.1", DS, fn, "no argsort of the roots: events are not ordered along the direction of integration", text="missing ordering")
+        run.report(rule_id, DS, fn, "no argsort of the roots: events are not ordered along the direction of integration", text="missing ordering")
         return
     ordname = src(order_st.targets[0])
     # the ordering key must be direction-normalised time: sign(t_next - t_prev) * roots
@@ -54,7 +54,7 @@ def truncation(repo, run):
     okk = kkey == "K"
     run.judged(rid, "ordering key `%s` has kind %s" % (src(order_st.value.args[0]) if order_st.value.args else None, kkey), ok=okk)
     if not okk:
-        run.report("C09.1", DS, order_st.value, "the roots are ordered by a key of kind %s, not by sign(t_next - t_prev) * root: for backward steps the order is reversed, so the "
+        run.report(rule_id, DS, order_st.value, "the roots are ordered by a key of kind %s, not by sign(t_next - t_prev) * root: for backward steps the order is reversed, so the "
                                                 "'first' terminal event is the LAST one met and the events before the true stop are dropped" % (kkey,))
     # any(is_terminal[active]) block  (locals such as `flags = is_terminal[active_events]` are inlined)
     from ..sym import inline_locals
@@ -81,7 +81,7 @@ def truncation(repo, run):
     okp = set(perm) >= {act, roots, evs} and all(path_key(order_st, fn) < path_key(s, fn) < path_key(term_if, fn) for s in perm.values())
     run.judged(rid, "ordering `%s` precedes the terminal test and permutes %s" % (src(order_st)[:80], sorted(perm)), ok=ok and okp)
     if not (ok and okp):
-        run.report("C09.1", DS, order_st, "the ordering along the direction of integration does not precede the terminal truncation for all of "
+        run.report(rule_id, DS, order_st, "the ordering along the direction of integration does not precede the terminal truncation for all of "
                                           "(active_events, roots, evs): the 'earliest' terminal event would be chosen in storage order")
     # first terminal index: nonzero(is_terminal[active])[0][0]
     idx_st = None
@@ -93,7 +93,7 @@ def truncation(repo, run):
     okidx = idx_st is not None and itext.endswith("[0][0]") and "is_terminal[%s]" % act in c.text(idx_st.value)
     run.judged(rid, "first terminal position: %s" % (src(idx_st) if idx_st else "<missing>"), ok=okidx)
     if not okidx:
-        run.report("C09.1", DS, idx_st or term_if, "the truncation index is not the FIRST terminal event among the ordered active events")
+        run.report(rule_id, DS, idx_st or term_if, "the truncation index is not the FIRST terminal event among the ordered active events")
         return
     iname = idx_st.targets[0].id
     # compare slice bounds with (index expression) + 1, both canonicalised with the same inlining
@@ -110,13 +110,13 @@ def truncation(repo, run):
         ok1 = name in cut and cut[name][0] in (want, want_alt)
         run.judged(rid, "truncation of %s: %s" % (name, src(cut[name][1]) if name in cut else "<missing>"), ok=ok1)
         if not ok1:
-            run.report("C09.1", DS, cut[name][1] if name in cut else term_if,
+            run.report(rule_id, DS, cut[name][1] if name in cut else term_if,
                        "`%s` is not truncated to [: first terminal + 1]: %s" % (name, "the terminal event itself is dropped or later events are kept" if name in cut else "the three arrays fall out of step"),
                        text="truncation of %s" % name)
     okt = any(isinstance(st, ast.Assign) and src(st.targets[0]) == term and isinstance(st.value, ast.Constant) and st.value.value is True for st in term_if.body)
     run.judged(rid, "terminate flag set in the terminal branch", ok=okt)
     if not okt:
-        run.report("C09.1", DS, term_if, "the terminal branch does not set the terminate flag", text="terminate flag")
+        run.report(rule_id, DS, term_if, "the terminal branch does not set the terminate flag", text="terminate flag")
 
 
 # ------------------------------------------------------------------------------------------------
@@ -215,8 +215,10 @@ def balance_rule(repo, run, rid, want):
             run.judged(rid, "iteration end: events=%s terminal=%s pieces-added=%d counter-advance=%d" % (ev, end, added, adv), ok=ok)
             if not ok:
                 run.report(rid, DS, m.loop, "an iteration can end with %d interpolant piece(s) added but the counter advanced by %d (events=%s, terminal event=%s): "
-                                            "%s" % (added, adv, ev, end, "the piece of the rolled-back step stays in the dense output beyond the event"
-                                                    if delta > 0 else "a committed step has no interpolant"),
+                                            "%s%s" % (added, adv, ev, end, "the piece(s) of the rolled-back step stay in the dense output beyond the event"
+                                                      if delta > 0 else "a committed step has no interpolant",
+                                                      " (a single remove_interpolant call removes ONE piece; a step of a Richardson-extrapolated method adds several, "
+                                                      "only the counted loop over len(sol) - pre_length removes them all)" if cl.single_removals and delta > 0 else ""),
                            text="iteration-end balance: events=%s terminal=%s delta=%+d" % (ev, end, delta))
         for (s, node) in out.ret:
             run.judged(rid, "return exit delta=%d" % (s[1] - s[2]), ok=s[1] - s[2] == 0)
